@@ -14,3 +14,27 @@ Print Assumptions c12_delay_schedule.
 Example c12_schedule_values :
   map spec_streak_delay [0; 1; 2; 3; 4]%nat = [sec 60; sec 120; sec 240; sec 300; sec 300].
 Proof. exact schedule_values. Qed.
+
+(* peer manager (Layer C), every interleaving *)
+From Coq Require Import List Bool.
+From Verif Require Import Closure Peer PeerProofs PeerCorollaries.
+
+(* while held down (manager at its loop) no FSM exists: both connections were dropped, nothing
+   dials; inbound connections are refused (c13_busy) *)
+Theorem c12_hold_down_no_fsm : forall p d s,
+  reachable p d s -> at_loop s = true -> s_hold s = true -> fst (s_fsm s) = None /\ snd (s_fsm s) = None.
+Proof. exact hold_down_no_fsm. Qed.
+Print Assumptions c12_hold_down_no_fsm.
+
+(* the retry timer is armed exactly while held down, so the period ends and the peer is retried *)
+Theorem c12_hold_down_timer : forall p d s,
+  reachable p d s -> at_loop s = true -> s_pclosed s = false -> s_hold s = s_timer s.
+Proof. exact hold_down_timer. Qed.
+Print Assumptions c12_hold_down_timer.
+
+(* exactly an error of the damping kind (a NOTIFICATION other than Cease, sent or received)
+   received by the manager schedules a hold-down; Cease, transport errors, stops never do *)
+Theorem c12_only_protocol_errors : forall p d tr s l s',
+  run sys label step (init p d) tr = Some s -> step s l = Some s' -> damp_ok s l s' = true.
+Proof. exact damping_only_by_protocol_error. Qed.
+Print Assumptions c12_only_protocol_errors.
